@@ -132,7 +132,7 @@ CLAIMED['C01'] = {
             'completion check is passed on the true edge of requires_vertex_links_at_completion; certifiers are verifiers that '
             'cannot answer Ok without a check having run; no constructor returns Ok after a flip repair without the cell '
             'orientation having been re-validated; sibling constructors (plain / statistics) reach the same verifiers; the '
-            'first construction attempt uses the caller\'s vertices unperturbed; per-insertion statistics record the outcome that is reported. The debug and the '
+            'first construction attempt uses the caller\'s vertices unperturbed; per-insertion statistics record the outcome that is reported; a stale cell hint reaches the same fallback scan as no hint. The debug and the '
             'release fact bases are analysed separately because RetryPolicy and validation paths differ — the suite '
             'never runs the release paths. Decides "Ok is certified", not that the certifier is numerically right.',
     'note': 'Trusted: rustc MIR; the L4 leaf table; Pseudomanifold has no Level-3 completion gate by design (noted in '
